@@ -248,6 +248,27 @@ theorem find_is_direct (rep noscan : Bool) (es : List Expr) (w w' : World) (out 
     obtain ⟨h1, h2⟩ := key _ h
     exact ⟨by simpa using h1, by rw [h1]; rfl, h2⟩
 
+/-- **References of artifacts that stay in the index are never dropped by `clean`.**  Whatever `clean` deletes and
+however the index is tidied up afterwards: a reference that the index held before the third pass and whose owner still
+has a row afterwards is still there — also when its target is not (yet) in the archive.  (The references of an artifact
+are only read again when its stat changes, so a dropped edge would never come back; the closure of a later `clean`
+would miss it.) -/
+theorem clean_keeps_refs_of_remaining_rows (rep noscan dry : Bool) (es : List Expr) (w : World) (p : Bid × Bid)
+    (hp : p ∈ (if noscan then w else scanCmd rep w).idx.refs)
+    (hrow : ∃ r ∈ (cleanCmd rep noscan dry es w).1.idx.rows, r.bid = p.1) :
+    p ∈ (cleanCmd rep noscan dry es w).1.idx.refs := by
+  cases noscan with
+  | true => exact refs_kept_cleanCmd rep dry es w p (by simpa using hp) hrow
+  | false =>
+    rw [cleanCmd_scan] at hrow ⊢
+    exact refs_kept_cleanCmd rep dry es _ p (by simpa using hp) hrow
+
+/-- ... and a sound index stays sound under `clean`: every remaining row still has exactly the references of its
+artifact (with `scan_normalises`: the same holds after every scan, whatever is absent from the archive). -/
+theorem clean_preserves_sound (C : Bid → Stat → Option AuditInfo) (w : World) (hs : Sound C w.idx) (rep dry : Bool)
+    (es : List Expr) : Sound C (cleanCmd rep true dry es w).1.idx :=
+  sound_cleanCmd hs rep dry es
+
 /-! ### the scan index -/
 
 /-- **scan_normalises** (repaired scanner).  Whatever the previous index was — empty, warm, or stale in any way
